@@ -1,4 +1,5 @@
 //! Monitors.
+pub mod corpus;
 pub mod dump;
 pub mod fault;
 pub mod step;
